@@ -11,7 +11,7 @@ verus! {
 pub uninterp spec fn setmax_ok(l: log::LevelFilter) -> bool;
 pub assume_specification[ log::set_max_level ](l: log::LevelFilter)
     requires
-        setmax_ok(l), //@label log::set_max_level.perm C02
+        setmax_ok(l), //@label log::set_max_level.perm C02,C05
 ;
 
 pub assume_specification<T: ?Sized, A: std::alloc::Allocator>[ <std::sync::Arc<T, A> as AsRef<T>>::as_ref ](a: &std::sync::Arc<T, A>) -> (r: &T)
@@ -55,7 +55,7 @@ pub mod logger_handle {
     impl WritersHandle {
         pub closed spec fn writers(&self) -> Map<String, Box<dyn LogWriter>> { (*self.other_writers)@ }
     //@ fn src/logger_handle.rs impl WritersHandle / fn reconfigure
-    //@   props C02
+    //@   props C02,C05
     //@   attr #[verifier::loop_isolation(false)]
     //@   rule R17 *
     //@   req[reconfigure.pre.perm] forall|l: log::LevelFilter| #[trigger] setmax_ok(l) <==> (filter_num(l) >= filter_num(max_level)
